@@ -8,6 +8,7 @@ import (
 	"go/token"
 	"go/types"
 	"math/big"
+	"regexp"
 	"sort"
 	"strings"
 
@@ -73,6 +74,7 @@ type Oblig struct {
 	Output  string
 	Model   map[string]string
 	SmtFile string
+	Extra   []string // extra assumptions (residual obligations of known findings)
 	Bytes   int
 }
 
@@ -130,6 +132,7 @@ type FnGen struct {
 	tagTypes  map[int]types.Type
 	dryHeader *ssa.BasicBlock
 	ranges    map[*ssa.Range]*rangeState
+	covers    []coverPoint
 }
 
 var bigOne = big.NewInt(1)
@@ -249,8 +252,14 @@ func intInfo(t types.Type) (bits int, signed bool, ok bool) {
 	return 0, false, false
 }
 
+var byteRe = regexp.MustCompile(`\bbyte\b`)
+var runeRe = regexp.MustCompile(`\brune\b`)
+
 func typeKey(t types.Type) string {
-	return sanitize(types.TypeString(t, func(p *types.Package) string { return p.Name() }))
+	s := types.TypeString(t, func(p *types.Package) string { return p.Name() })
+	s = byteRe.ReplaceAllString(s, "uint8")
+	s = runeRe.ReplaceAllString(s, "int32")
+	return sanitize(s)
 }
 
 func (g *FnGen) sortOf(t types.Type) string {
@@ -948,6 +957,15 @@ func slen(s string) string { return "(s-len " + s + ")" }
 func scap(s string) string { return "(s-cap " + s + ")" }
 
 func (g *FnGen) add(a, b string) string {
+	// peephole: a + (J - a) == J (absolute-index quantifiers, see Env.quant)
+	for _, op := range []string{"(bvsub ", "(- "} {
+		if strings.HasPrefix(b, op) && strings.HasSuffix(b, " "+a+")") {
+			j := b[len(op) : len(b)-len(a)-2]
+			if !strings.ContainsAny(j, " ()") {
+				return j
+			}
+		}
+	}
 	if g.mode == "bv" {
 		return fmt.Sprintf("(bvadd %s %s)", a, b)
 	}
@@ -991,7 +1009,8 @@ func (g *FnGen) prelude() string {
 	fmt.Fprintf(&b, "(declare-fun slen (Str) %s)\n(declare-fun sat (Str %s) %s)\n", idx, idx, g.isort(8))
 	b.WriteString("(declare-const nil_iface Iface)\n(declare-fun tagof (Iface) Int)\n(assert (= (tagof nil_iface) 0))\n")
 	b.WriteString("(declare-const f64zero F64)\n")
-	fmt.Fprintf(&b, "(assert (forall ((s Str)) (! (%s %s (slen s)) :pattern ((slen s)))))\n", g.cmp("<=", true), g.ilit64(0))
+	fmt.Fprintf(&b, "(assert (forall ((s Str)) (! (and (%s %s (slen s)) (%s (slen s) %s)) :pattern ((slen s)))))\n",
+		g.cmp("<=", true), g.ilit64(0), g.cmp("<=", true), g.ilit64(1<<maxLenLog))
 	return b.String()
 }
 
@@ -1012,6 +1031,11 @@ func (g *FnGen) script(o *Oblig) string {
 		b.WriteString(a)
 		b.WriteString(")\n")
 	}
+	for _, x := range o.Extra {
+		b.WriteString("(assert ")
+		b.WriteString(x)
+		b.WriteString(")\n")
+	}
 	guard := o.Guard
 	if guard == "" {
 		guard = "true"
@@ -1028,4 +1052,43 @@ func sortedKeys(m map[string]bool) []string {
 	}
 	sort.Strings(ks)
 	return ks
+}
+
+type coverPoint struct {
+	kind    string // entry | ret | loop
+	name    string
+	nAssume int
+	guard   string
+}
+
+func (g *FnGen) addCover(kind, name string) {
+	if g.dry {
+		return
+	}
+	g.covers = append(g.covers, coverPoint{kind, name, len(g.assumes), g.curR})
+}
+
+// coverScript: the assumptions up to the point plus reachability must be satisfiable.
+func (g *FnGen) coverScript(c coverPoint) string {
+	var b strings.Builder
+	b.WriteString(g.prelude())
+	for _, d := range g.preludeX {
+		b.WriteString(d)
+		b.WriteByte('\n')
+	}
+	for _, d := range g.decls {
+		b.WriteString(d)
+		b.WriteByte('\n')
+	}
+	for _, a := range g.assumes[:c.nAssume] {
+		b.WriteString("(assert ")
+		b.WriteString(a)
+		b.WriteString(")\n")
+	}
+	guard := c.guard
+	if guard == "" {
+		guard = "true"
+	}
+	fmt.Fprintf(&b, "(assert %s)\n(check-sat)\n", guard)
+	return b.String()
 }
